@@ -372,6 +372,8 @@ def windows_of(case, starts_sorted_instr):
         for lab, cf in g["pulses"]:
             if tl[0] == "s":
                 w = (F(s), [F(0), F(tl[1])], [F(cf[1])], "discrete")
+            elif cf[0] == "s":
+                w = (F(s), [F(x) for x in tl[1]], [F(cf[1])], "bad")
             else:
                 t = [F(x) for x in tl[1]]
                 c = [F(x) for x in cf[1]]
@@ -505,6 +507,15 @@ def shipped_case(rng):
             "mode": rng.choice([None, "ASAP", "ALAP"])}
 
 
+def shipped_excluded(case):
+    """classes the theorems exclude explicitly (WaveOK): zero-duration instructions, and the cavity-QED swap
+    compilers with a sampled shape (array tlist next to scalar coefficients -> Wave.mixed -> TypeError)"""
+    if any(g[0] in ("RX", "RZ", "RY") and g[3] == 0 for g in case["gates"]):
+        return True
+    return case["compiler"] == "cavityqed" and case["shape"] != "rectangular" and \
+        any(g[0] in ("ISWAP", "SQRTISWAP") for g in case["gates"])
+
+
 def build_shipped(case):
     from qutip_qip.device import LinearSpinChain, CircularSpinChain, DispersiveCavityQED, SCQubits
     from qutip_qip.compiler import SpinChainCompiler, CavityQEDCompiler, SCQubitsCompiler
@@ -556,8 +567,8 @@ def shipped_instructions(case):
 # ----------------------------------------------------------------------------------------------
 KNOWN_WITNESSES = {
     "scale": {"kind": "synthetic", "case": {"nq": 1, "mode": None, "gates": [
-        {"name": "RX", "targets": [0], "controls": None, "tl": ["s", "1/1000000000"], "pulses": [["x0", ["s", "1/2"]]]},
-        {"name": "RX", "targets": [0], "controls": None, "tl": ["s", "10000"], "pulses": [["x0", ["s", "1/2"]]]}]}},
+        {"name": "RX", "targets": [0], "controls": None, "tl": ["s", "1/1073741824"], "pulses": [["x0", ["s", "1/2"]]]},
+        {"name": "RX", "targets": [0], "controls": None, "tl": ["s", "8192"], "pulses": [["x0", ["s", "1/2"]]]}]}},
 }
 
 
@@ -570,6 +581,7 @@ class C12(PropertyCheck):
         "QipVerif.C12.grid_starts_at_zero_and_increases",
         "QipVerif.C12.coefficient_length_fits",
         "QipVerif.C12.discrete_channel_is_schedule",
+        "QipVerif.C12.continuous_channel_is_schedule",
         "QipVerif.C12.scale_counterexample",
         "QipVerif.C12.gap_counterexample",
     ]
@@ -581,13 +593,16 @@ class C12(PropertyCheck):
                   "is covered) _concatenate_pulses succeeds and equals compiledChannel per channel; every channel's grid starts at 0 "
                   "and increases strictly (scalar, discrete and continuous pulses, mixed too); the coefficient length fits the grid "
                   "for the channel's kind; for channels of scalar/discrete pulses the step function of the compiled arrays equals the "
-                  "scheduled function at every time t (instruction waveform inside its window, 0 elsewhere).  Without Sep the "
+                  "scheduled function at every time t (instruction waveform inside its window, 0 elsewhere); for channels of continuous "
+                  "pulses every (grid point, coefficient) pair is explained by the schedule (inside a window (s, s+dur] it is that "
+                  "instruction's sample, elsewhere 0) and every kept sample of every instruction is present.  Without Sep the "
                   "statement is refuted on the model by decide (scale_counterexample: durations [1e-9, 1e4] give grid "
                   "[0,1e-9,0,1e4+1e-9]; gap_counterexample) and on the code by replay.  The model is tied to GateCompiler.compile / "
                   "_concatenate_pulses by an exact correspondence on dyadic inputs spanning 2^-30..2^20 and to the spin-chain, "
                   "cavity-QED and SC-qubit compilers to 1e-9.")
-    level_note = ("Proof under Sep; outside Sep the property is false (findings).  The sample-level statement for continuous channels "
-                  "is covered by the grid/length theorems and by the correspondence and oracle, see notes/C12.md for what is proved.  "
+    level_note = ("Proof under Sep; outside Sep the property is false (findings).  Continuous pulses are judged at their sample points "
+                  "(the cubic spline through them is runtime numerics); the code drops each continuous pulse's first sample (documented "
+                  "convention: it is 0).  Channels mixing discrete and continuous instructions are covered by the grid/length theorems only.  "
                   "The scheduler (start times) is C11's model: the start times the real Scheduler returns and the permutation "
                   "np.argsort returns are inputs of this model.  Trusted: Lean kernel (propext, Classical.choice, Quot.sound), "
                   "np.linspace/np.arange/np.argsort/np.concatenate as modelled, the harness py/props/c12.py.")
@@ -934,14 +949,14 @@ class C12(PropertyCheck):
             instrs = shipped_instructions(case)
             comp, gates = build_shipped(case)
             st, payload, starts, perm = run_compile_real(comp, gates, case["mode"])
+            if st != "ok":
+                return True, f"{case['compiler']} compiler (shape {case['shape']}): compile raised {payload}"
             mcase = {"nq": case["n"], "mode": case["mode"], "gates": [
                 dict(g, tl=[g["tl"][0], g["tl"][1]]) for g in instrs]}
             chans = windows_of(mcase, ordered_instr(mcase, [F(x) for x in starts] if starts else None, perm))
             if not chans:
                 return False, "no control channel"
-            # float schedules: tolerate rounding by snapping (only the structural clauses are checked exactly)
-            if st != "ok":
-                return True, f"compile raised {payload}"
+            # float schedules: only the structural clauses are checked exactly
             for lab, tl, cf in payload:
                 g = list(tl)
                 if g[0] != 0.0 or any(g[i + 1] <= g[i] for i in range(len(g) - 1)):
@@ -960,6 +975,10 @@ class C12(PropertyCheck):
             qc.add_gate("RX", 0, arg_value=0.0)
             try:
                 tl, cf = p.load_circuit(qc)
+                for k in tl:
+                    g = list(tl[k])
+                    if any(g[i + 1] <= g[i] for i in range(len(g) - 1)):
+                        return True, f"zero-duration instruction: grid of {k} is {g}, not strictly increasing"
                 p.get_full_coeffs()
                 lens = {k: (len(tl[k]), len(cf[k])) for k in tl}
                 bad = [k for k, (a, b) in lens.items() if b != a - 1]
@@ -968,6 +987,13 @@ class C12(PropertyCheck):
                 return False, "zero-duration instruction handled"
             except Exception as e:
                 return True, f"RX(0) on a spin chain: {type(e).__name__}: {e}"
+        if w["kind"] == "idle-only":
+            gc_mod, GateCompiler, Instruction, Gate = _impl()
+            try:
+                r = GateCompiler(1).compile([Gate("IDLE", targets=[0], arg_value=1.0)])
+                return False, f"compile of an IDLE-only gate list returns {r}"
+            except Exception as e:
+                return True, f"compile of a gate list containing only IDLE raises {type(e).__name__}: {e}"
         if w["kind"] == "unit":
             return False, "unit comparison only"
         return False, "unknown witness kind"
@@ -1006,7 +1032,7 @@ class C12(PropertyCheck):
         yield from self._sweep(ctx, 120, only_sep=True)
         for _ in range(10):
             w = {"kind": "shipped", "case": shipped_case(ctx.rng)}
-            if any(g[0] in ("RX", "RZ", "RY") and g[3] == 0 for g in w["case"]["gates"]):
+            if shipped_excluded(w["case"]):
                 continue
             try:
                 f, d = self.oracle_replay(ctx, w)
@@ -1022,6 +1048,8 @@ class C12(PropertyCheck):
                 yield w, d
             for _ in range(5):
                 w = {"kind": "shipped", "case": shipped_case(ctx.rng)}
+                if shipped_excluded(w["case"]):
+                    continue
                 try:
                     f, d = self.oracle_replay(ctx, w)
                 except Exception as e:
